@@ -55,12 +55,15 @@ def scope_table(tree):
     return table
 
 
-def skeleton_script(tree, values, unused=frozenset()):
+def skeleton_script(tree, values, unused=frozenset(), ctrl_uses=None):
     """values: [(scope, dep, uses)], dep = "x" | ("arg", loop_scope) | ("val", j); uses = set of scopes.
     A value is created at the start of its scope's block; the use-node of a scope (a Sum over the
     scope's base value, the values used there and the control nodes of the scope) is created at its
     end and is the scope's result.  `unused` = indices (creation order) of control nodes whose
-    outputs nobody consumes.  Raises Invalid if a reference would precede the creation."""
+    outputs nobody consumes; `ctrl_uses` = {control node index: scopes whose use-node additionally
+    consumes its output}.  Raises Invalid if a reference would precede the creation."""
+    ctrl_uses = ctrl_uses or {}
+    ctrl_id: dict[int, int] = {}
     counter = [2]
     val_id: dict[int, int] = {}
     carried: dict[int, int] = {}
@@ -106,6 +109,7 @@ def skeleton_script(tree, values, unused=frozenset()):
             cid = fresh()
             me = ctrl_no[0]
             ctrl_no[0] += 1
+            ctrl_id[me] = cid
             if me not in unused:
                 refs.append(cid)
         for k, (s, dep, uses) in enumerate(values):
@@ -113,6 +117,12 @@ def skeleton_script(tree, values, unused=frozenset()):
                 if k not in val_id:
                     raise Invalid
                 refs.append(val_id[k])
+        for c, where in ctrl_uses.items():
+            if sidx in where:
+                if c not in ctrl_id:
+                    raise Invalid
+                if ctrl_id[c] not in refs:
+                    refs.append(ctrl_id[c])
         block.append(["val", "sum", refs])
         return block, [fresh()]
 
@@ -198,8 +208,8 @@ def random_script(rng: random.Random, size: int, leak_p: float, max_depth: int =
             budget[0] -= 1
             r = rng.random()
             if r < 0.55 or depth >= max_depth:
-                kind = rng.choice(["neg", "add", "add", "sum", "less", "const"])
-                if kind == "const":
+                kind = rng.choice(["neg", "add", "add", "sum", "less", "const", "init"])
+                if kind in ("const", "init"):
                     refs = []
                 elif kind == "neg":
                     refs = [pick("f", open_bodies, local)]
@@ -373,3 +383,77 @@ def handmade_aps():
                    {"args": [2, 3, 4], "res": [3, 5]},
                    {"args": [7, 8, 9], "res": [8, 10]}],
     }
+
+
+def tree_depth(tree) -> int:
+    def d(ctrls):
+        return 1 + max([max(d(c[1]), d(c[2])) if c[0] == "if" else d(c[1]) for c in ctrls], default=0)
+
+    return d(tree)
+
+
+def ctrl_table(tree):
+    """Control nodes in creation order: (index, parent scope, [body scopes])."""
+    table = []
+    scope_no = [0]
+
+    def go(ctrls):
+        sidx = scope_no[0]
+        scope_no[0] += 1
+        for c in ctrls:
+            bodies = []
+            if c[0] == "if":
+                bodies.append(scope_no[0])
+                go(c[1])
+                bodies.append(scope_no[0])
+                go(c[2])
+            else:
+                bodies.append(scope_no[0])
+                go(c[1])
+            table.append((sidx, bodies))
+        return sidx
+
+    go(tree)
+    # creation order = post-order of the recursion above, which is how `table` was filled
+    return [(i, p, b) for i, (p, b) in enumerate(table)]
+
+
+def cross_skeletons(max_bodies: int, rng: random.Random | None = None, sample: int | None = None):
+    """Programs in which the OUTPUT of a control-flow node is consumed from two further scopes (any
+    pair: related or unrelated, equal or different depth) while a value is shared between that node's
+    own bodies - the interleaving on which the order of the scope relaxation matters (the node is
+    hoisted after its bodies were entered). Trees with up to `max_bodies` bodies, depth >= 2.
+    Exhaustive over (tree, node, pair of consumer scopes, where the shared value is created) unless
+    `sample` is given."""
+    combos = []
+    for tree, used in ctrl_lists(max_bodies):
+        if used < 3 or tree_depth(tree) < 3:
+            continue
+        table = scope_table(tree)
+        scopes = [t[0] for t in table]
+        for ci, parent, bodies in ctrl_table(tree):
+            for u1, u2 in itertools.combinations(scopes, 2):
+                for vscope in {0, parent}:
+                    combos.append((tree, ci, parent, tuple(bodies), u1, u2, vscope))
+    if sample is not None:
+        assert rng is not None
+        combos = [rng.choice(combos) for _ in range(sample)] if combos else []
+    for tree, ci, parent, bodies, u1, u2, vscope in combos:
+        table = scope_table(tree)
+        desc = set(bodies)
+        # the shared value is used in the node's bodies (and, for a Loop, in the scopes nested in it)
+        changed = True
+        while changed:
+            changed = False
+            for idx, par, _ in table:
+                if par in desc and idx not in desc:
+                    desc.add(idx)
+                    changed = True
+        uses = frozenset(bodies) if len(bodies) > 1 else frozenset(desc)
+        vals = [(vscope, "x", uses)]
+        for unused in (frozenset(), frozenset([ci])):
+            try:
+                sc = skeleton_script(tree, vals, unused=unused, ctrl_uses={ci: {u1, u2}})
+            except Invalid:
+                continue
+            yield {"tree": tree, "ctrl": ci, "consumers": [u1, u2], "value_scope": vscope, "unused": sorted(unused)}, sc
